@@ -209,8 +209,7 @@ func coupling(st *State, name string, keys []*Term) *Term {
 	case "nAtt":
 		return st.cnt["Attester/value/"]
 	case "attList":
-		p := BytesConst("Attester/value/")
-		k := App("rangeKey", SBytes, st.rawHas, p, keys[0])
+		k := rangeKeyTerm(st, BytesConst("Attester/value/"), keys[0])
 		return Ite(BVUlt(keys[0], st.cnt["Attester/value/"]), dec("Attester", "Attester", SBytes, Select(st.rawVal, k)), EmptyBytes)
 	}
 	panic("coupling: unknown component " + name)
@@ -337,6 +336,11 @@ var preludeGroups = []preludeGroup{
 	{[]string{"addrOf"}, `(declare-fun addrOf ((_ BitVec 264) (_ BitVec 264)) Bytes)
 (assert (forall ((x (_ BitVec 264)) (y (_ BitVec 264))) (! (and (canon (addrOf x y)) (= (blen (addrOf x y)) #x0000000000000014)) :pattern ((addrOf x y)))))
 `},
+	{[]string{"rangeKeyAtt"}, `(define-fun attPrefix ((k Bytes)) Bool (and (bvuge (blen k) #x000000000000000f) (= (select (barr k) #x0000000000000000) #x41) (= (select (barr k) #x0000000000000001) #x74) (= (select (barr k) #x0000000000000002) #x74) (= (select (barr k) #x0000000000000003) #x65) (= (select (barr k) #x0000000000000004) #x73) (= (select (barr k) #x0000000000000005) #x74) (= (select (barr k) #x0000000000000006) #x65) (= (select (barr k) #x0000000000000007) #x72) (= (select (barr k) #x0000000000000008) #x2f) (= (select (barr k) #x0000000000000009) #x76) (= (select (barr k) #x000000000000000a) #x61) (= (select (barr k) #x000000000000000b) #x6c) (= (select (barr k) #x000000000000000c) #x75) (= (select (barr k) #x000000000000000d) #x65) (= (select (barr k) #x000000000000000e) #x2f)))
+(declare-fun rangeKeyAtt ((Array Bytes Bool) (_ BitVec 64)) Bytes)
+(assert (forall ((h (Array Bytes Bool)) (k Bytes) (v Bool) (j (_ BitVec 64))) (! (=> (not (attPrefix k)) (= (rangeKeyAtt (store h k v) j) (rangeKeyAtt h j))) :pattern ((rangeKeyAtt (store h k v) j)))))
+(assert (forall ((h (Array Bytes Bool)) (j (_ BitVec 64))) (! (and (attPrefix (rangeKeyAtt h j)) (canon (rangeKeyAtt h j))) :pattern ((rangeKeyAtt h j)))))
+`},
 	{[]string{"errText"}, `(declare-fun errText (Int) Bytes)
 `},
 }
@@ -411,7 +415,6 @@ func codecPrelude(typ string) string {
 // buildPrelude selects the groups a query needs.
 func buildPrelude(used map[string]bool) string {
 	var sb strings.Builder
-	sb.WriteString("(declare-sort Ext 0)\n")
 	need := map[int]bool{}
 	changed := true
 	// canon is needed by most groups
@@ -540,7 +543,7 @@ func canonFacts(ts []*Term) []*Term {
 					n = 8
 				}
 				for i := uint64(0); i < n; i++ {
-					out = append(out, Eq(Select(Barr(t), BVU(64, i)), Select(Barr(t.Args[0]), BVU(64, i))))
+					out = append(out, Eq(RawSelect(intern(&Term{Op: "barr", Sort: SArr, Args: []*Term{t}}), BVU(64, i)), Select(Barr(t.Args[0]), BVU(64, i))))
 				}
 			}
 		}
@@ -582,13 +585,61 @@ func extGoal(t *Term, positive bool, ctr *int) *Term {
 		}
 	case "=":
 		if positive && t.Args[0].Sort == SBytes && (structured(t.Args[0]) || structured(t.Args[1])) {
-			*ctr++
-			k := Var(fmt.Sprintf("ext$k%d", *ctr), SBV(64))
-			x, y := t.Args[0], t.Args[1]
-			return And(Eq(Blen(x), Blen(y)), Eq(Select(Barr(x), k), Select(Barr(y), k)))
+			return bytesEqGoal(t.Args[0], t.Args[1], ctr)
 		}
 	}
 	return t
+}
+
+// constructedLen: t is mkb(store chain over the zero array at constant indices < n, n); returns n.
+func constructedLen(t *Term) (uint64, bool) {
+	if t.Op != "mkb" {
+		return 0, false
+	}
+	n, ok := t.Args[1].U64()
+	if !ok || n > 256 {
+		return 0, false
+	}
+	a := t.Args[0]
+	for a.Op == "store" {
+		i, ok := a.Args[1].U64()
+		if !ok || i >= n {
+			return 0, false
+		}
+		a = a.Args[0]
+	}
+	return n, a == ZeroArr
+}
+
+// bytesEqGoal returns a formula that implies x = y (and is equivalent to it in the cases that occur):
+// cat is compared piecewise, literal layouts byte by byte, anything else at a fresh index.
+func bytesEqGoal(x, y *Term, ctr *int) *Term {
+	if x == y {
+		return TTrue
+	}
+	if x.Op == "app" && x.Name == "cat" && y.Op == "app" && y.Name == "cat" {
+		return And(bytesEqGoal(x.Args[0], y.Args[0], ctr), bytesEqGoal(x.Args[1], y.Args[1], ctr))
+	}
+	if _, ok := constructedLen(y); ok {
+		x, y = y, x
+	}
+	if n, ok := constructedLen(x); ok {
+		conj := []*Term{}
+		if m, ok := constructedLen(y); ok {
+			if m != n {
+				return TFalse
+			}
+		} else {
+			conj = append(conj, Eq(Blen(y), BVU(64, n)), App("canon", SBool, y))
+		}
+		for i := uint64(0); i < n; i++ {
+			conj = append(conj, Eq(Select(Barr(x), BVU(64, i)), Select(Barr(y), BVU(64, i))))
+		}
+		return And(conj...)
+	}
+	*ctr++
+	k := Var(fmt.Sprintf("ext$k%d", *ctr), SBV(64))
+	return And(Eq(Blen(x), Blen(y)), Eq(Select(Barr(x), k), Select(Barr(y), k)))
 }
 
 func structured(t *Term) bool {
@@ -601,4 +652,163 @@ func structured(t *Term) bool {
 		return structured(t.Args[1]) || structured(t.Args[2])
 	}
 	return false
+}
+
+func init() {
+	rebuildApp = func(name string, args []*Term) *Term {
+		switch name {
+		case "snap":
+			return snapArr(args[0], args[1], args[2])
+		case "cat":
+			return Cat(args[0], args[1])
+		}
+		return nil
+	}
+}
+
+// ---- unit propagation over the assumptions of a query
+
+// propagate rewrites the assumptions and the goal with the unit facts found among the assumptions:
+// an atom a (or its negation) is replaced by true (false) everywhere else, t = const and x + c1 = c2
+// replace t (x) by the constant. The facts themselves are kept. Iterated to a fixpoint.
+func propagate(assumes []*Term, goal *Term) ([]*Term, *Term) {
+	flatten := func(in []*Term) []*Term {
+		var flat []*Term
+		var add func(a *Term)
+		add = func(a *Term) {
+			switch {
+			case a == TTrue:
+			case a.Op == "and":
+				for _, x := range a.Args {
+					add(x)
+				}
+			case a.Op == "=" && a.Args[0].Sort == SBytes:
+				n1, ok1 := constructedLen(a.Args[0])
+				n2, ok2 := constructedLen(a.Args[1])
+				if ok1 && ok2 && n1 == n2 {
+					for i := uint64(0); i < n1; i++ {
+						add(Eq(Select(Barr(a.Args[0]), BVU(64, i)), Select(Barr(a.Args[1]), BVU(64, i))))
+					}
+				} else {
+					flat = append(flat, a)
+				}
+			default:
+				flat = append(flat, a)
+			}
+		}
+		for _, a := range in {
+			add(a)
+		}
+		return flat
+	}
+	cur := flatten(assumes)
+	for round := 0; round < 10; round++ {
+		// collect units: key term -> replacement, remembering which assumption defines it
+		m := map[*Term]*Term{}
+		owner := map[*Term]*Term{}
+		for _, a := range cur {
+			var k, v *Term
+			switch {
+			case a.Op == "not":
+				k, v = a.Args[0], TFalse
+			case a.Op == "=" && a.Args[0].Sort != SBool:
+				x, y := a.Args[0], a.Args[1]
+				if x.Op == "const" {
+					x, y = y, x
+				}
+				if y.Op == "const" && x.Op != "const" {
+					if x.Op == "bvadd" && x.Args[1].Op == "const" {
+						k, v = x.Args[0], BVSub(y, x.Args[1])
+					} else {
+						k, v = x, y
+					}
+				} else {
+					k, v = a, TTrue
+				}
+			case a.Op == "or" || a.Op == "=>" || a.Op == "ite" || a.Op == "forall" || a.Op == "exists" || a.Op == "bconst":
+			default:
+				k, v = a, TTrue
+			}
+			if k != nil && k.Op != "const" && k.Op != "bconst" {
+				if _, dup := m[k]; !dup {
+					m[k] = v
+					owner[k] = a
+				}
+			}
+		}
+		if len(m) == 0 {
+			break
+		}
+		changed := false
+		var next []*Term
+		for _, a := range cur {
+			// do not rewrite a fact with itself
+			mm := m
+			for k, o := range owner {
+				if o == a {
+					mm = make(map[*Term]*Term, len(m))
+					for k2, v2 := range m {
+						if k2 != k {
+							mm[k2] = v2
+						}
+					}
+					break
+				}
+			}
+			n := Subst(a, mm)
+			if n != a {
+				changed = true
+			}
+			next = append(next, n)
+		}
+		g := Subst(goal, m)
+		if g != goal {
+			changed = true
+			goal = g
+		}
+		cur = flatten(next)
+		if !changed {
+			break
+		}
+	}
+	return cur, goal
+}
+
+// AccBytes / ValidBech32 apply the assumed round-trip axiom of the account-prefix bech32 encoding at term
+// level: for a canonical b of 1..255 bytes, accBytes(bech32(acctPrefix, b)) = b and the string is valid.
+func bech32Arg(s *Term) (*Term, bool) {
+	if s.Op == "app" && s.Name == "bech32" && s.Args[0] == Var("acctPrefix", SBytes) {
+		b := s.Args[1]
+		if n, ok := Blen(b).U64(); ok && n >= 1 && n <= 255 {
+			if b.Op == "app" && (b.Name == "moduleAddr" || b.Name == "keccak" || b.Name == "addrOf") {
+				return b, true
+			}
+			if _, ok := constructedLen(b); ok {
+				return b, true
+			}
+		}
+	}
+	return nil, false
+}
+
+func AccBytes(s *Term) *Term {
+	if b, ok := bech32Arg(s); ok {
+		return b
+	}
+	return App("accBytes", SBytes, s)
+}
+
+func ValidBech32(s *Term) *Term {
+	if _, ok := bech32Arg(s); ok {
+		return TTrue
+	}
+	return App("validBech32", SBool, s)
+}
+
+// rangeKeyTerm is the raw key of the pos-th entry (in key order) of the prefix range (L0 iterator contract).
+func rangeKeyTerm(st *State, prefix, pos *Term) *Term {
+	if prefix == BytesConst("Attester/value/") {
+		return App("rangeKeyAtt", SBytes, st.rawHas, pos)
+	}
+	return App("rangeKey", SBytes, st.rawHas, prefix, pos)
 }
